@@ -419,7 +419,12 @@ def message_profile_prepare(run, dist):
                             ccode = S.outcome_code(ex)
                         cbyv.setdefault(v, []).append({'v': v, 'lvl': lvl, 'name': nm, 'term': term, 'code': ccode,
                                                        'kind': kind, 'structure': m})
-                txt = text if written == m else '\r'.join([c01.msh_line(written, v)] + lines)
+                # about every second message (decided by its version and name, no draw from the generator) is written
+                # with CR LF line ends and a trailing CR LF: parse_segments strips each piece before it takes the
+                # segment name, so groups and profile references are those of the CR-separated text
+                # (Properties/C18.v C18_crlf_same_profile_parse)
+                sep = '\r\n' if sum(map(ord, v + m)) % 2 == 0 else '\r'
+                txt = sep.join([c01.msh_line(written, v)] + lines) + (sep if sep != '\r' else '')
                 dist['mp_' + kind] = dist.get('mp_' + kind, 0) + 1
                 dts = set()
                 for r in (prof or {}).values():
